@@ -1128,6 +1128,7 @@ theorem inv_step {s : State} (h : Inv s) (e : Ev) (he : e.enabled s = true) : In
   | throw i x => exact inv_throw h i false
   | interrupt i x => exact inv_throw h i true
   | setEv ev => exact inv_setEv h ev
+  | reinsert i ps => exact h.keyEq (keyEq_clearRkeys s _)
 
 theorem inv_init {s : State} (hi : Initial s) : Inv s := by
   have ht := hi.tasks
